@@ -370,6 +370,7 @@ def compare(chk, role, n_apps, batch, factory, mon, tag):
         chk.case(inp, kind="%s:%s:len%d" % (tag, role, min(len(events) // 10 * 10, 100)))
         model = o.split("|")
         impl = [s.obs for s in steps]
+        chk.traces_validated += 1
         if impl != model[:len(impl)] or (len(model) != len(impl) and not steps[-1].exc):
             k = next((i for i, (a, b) in enumerate(zip(impl, model)) if a != b), min(len(impl), len(model)))
             chk.corr_break("psm-trace", dict(inp, first_difference_at=k, event=" ".join(map(str, events[k])) if k < len(events) else None),
